@@ -139,10 +139,18 @@ def uuid4(ip, args, kwargs, node):
     return ip.new_obj("UUID", {"hex": VStr(h)})
 
 
+def opaque_getitem(ip, base, idx):
+    """subscript of an opaque (decoded JSON) value with a concrete key: an uninterpreted projection"""
+    k = ip.concrete_key(idx)
+    f = z3.Function("json_get", Opaque, z3.StringSort(), Opaque)
+    return VOpaque(f(base.term, z3.StringVal(str(k))))
+
+
 def install(lib):
     lib["JSON_ENCODER"] = VModule("JSON_ENCODER", {"encode": VBuiltin("JSONEncoder.encode", json_encode)})
     lib["json"] = VModule("json", {"loads": VBuiltin("json.loads", json_loads),
                                    "JSONEncoder": VModule("JSONEncoder", {"default": VBuiltin("JSONEncoder.default", _base_default)})})
+    lib["__getitem__"]["opaque"] = opaque_getitem
     lib["asdict"] = VBuiltin("asdict", b_asdict)
     lib["is_dataclass"] = VBuiltin("is_dataclass", b_is_dataclass)
     lib["__methods__"][("dt", "isoformat")] = VBuiltin("datetime.isoformat", dt_isoformat)
